@@ -63,6 +63,8 @@ def make_factors(eng, st):
     f["_c"] = st.alloc(z3.Const("factors__c", array_sort(m, "int", 1)), [e], "int")
     f["_j"] = st.alloc(z3.Const("factors__j", array_sort(m, "int", 1)), [b], "int")
     f["_k"] = st.alloc(z3.Const("factors__k", array_sort(m, "int", 1)), [b], "int")
+    # ghost field: S[n] = sum of all messages addressed to node n (mirrored at every write to a factor)
+    f["S"] = st.alloc(z3.Const("factors_S", array_sort(m, "float", 2)), [n, 2], "float")
     return Obj(f)
 
 
@@ -108,7 +110,24 @@ class FunctionVCs:
 
 
 def generate(contract, registry, props=None, tier="quick"):
-    """Generate all obligations for one function under its contract."""
+    """Generate all obligations for one function under its contract (once per variant, if any)."""
+    if contract.variants:
+        outs = []
+        for var in contract.variants:
+            label = ",".join(f"{k}={v}" for k, v in var.items() if k != "__bind")
+            o = _generate(contract, registry, props, tier, var, label)
+            outs.append(o)
+        first = outs[0]
+        for o in outs[1:]:
+            first.obligations.extend(o.obligations)
+            first.notes.extend(n for n in o.notes if n not in first.notes)
+            first.error = first.error or o.error
+            first.npaths += o.npaths
+        return first
+    return _generate(contract, registry, props, tier, None, "")
+
+
+def _generate(contract, registry, props, tier, variant, label):
     resolve_registry(registry)
     fn = extract.get_function(contract.name)
     out = FunctionVCs(contract, fn)
@@ -119,6 +138,14 @@ def generate(contract, registry, props=None, tier="quick"):
     try:
         st, inputs = entry_state(eng, contract)
         out.inputs = inputs
+        for k_, v_ in (variant or {}).items():
+            if k_ == "__bind":
+                continue
+            st.vars[k_] = v_
+            st.entry[k_] = v_
+        for k_, expr_ in ((variant or {}).get("__bind") or {}).items():
+            st.vars[k_] = eng.ev(st, ast.parse(expr_, mode="eval").body, True)
+            st.entry[k_] = st.vars[k_]
         for gname, (gkind, gshape) in contract.ghost_decl.items():
             if gname in st.vars:
                 raise Unsupported(f"ghost variable {gname} clashes with a program variable")
@@ -203,6 +230,9 @@ def generate(contract, registry, props=None, tier="quick"):
     else:
         out_lemmas = []
     out.obligations = out.obligations + out_lemmas
+    if label:
+        for ob_ in out.obligations:
+            ob_.name = ob_.name + f"[{label}]"
     if eng.abstract_fp and eng.mode.fp:
         from .fplemmas import lemma_obligations
         lems, lnotes = lemma_obligations(tier)
